@@ -790,7 +790,7 @@ func lookupSegment(t types.Type, part string) (ft types.Type, qual string, ok bo
 		if f, isFn := obj.(*types.Func); isFn {
 			sig := f.Type().(*types.Signature)
 			if sig.Results().Len() >= 1 {
-				return sig.Results().At(0).Type(), "method:" + short(f.FullName()), true, false
+				return sig.Results().At(0).Type(), "method:" + fnName(f.FullName()), true, false
 			}
 		}
 	}
